@@ -395,7 +395,9 @@ class Ctx:
                 tr = batch[idx]
                 line = mark - pos - 1
                 rejections.append({"trace": tr, "line": line, "event": tr[line],
-                                   "invariant": inv, "label": label})
+                                   "invariant": inv, "label": label,
+                                   "how": {"family": family, "module": module, "cfg": cfg, "dfs": dfs,
+                                           "env": env or {}}})
                 self.traces_validated += idx
                 self.events_validated += pos
                 batch = batch[idx + 1:]
@@ -426,6 +428,7 @@ class Ctx:
                    "rejected_line": rj["line"], "rejected_event": ev,
                    "spec_invariant_violated": rj.get("invariant"),
                    "label": rj.get("label", ""),
+                   "validate_with": rj.get("how", {}),
                    "explanation": (describe(rj) if describe else
                                    "the specification cannot explain event #%d of this trace "
                                    "recorded from the real code" % rj["line"]),
@@ -540,10 +543,26 @@ def main(pid, runner, argv=None):
 
 
 def do_replay(ctx, runner):
+    """Re-validate the trace stored in a replay file with the trace spec that rejected it."""
     doc = json.load(open(ctx.replay))
     log("replay of %s: rejected event #%d: %s" % (ctx.replay, doc["rejected_line"],
-                                                   json.dumps(doc["rejected_event"])))
+                                                   json.dumps(doc["rejected_event"])[:600]))
     log(doc.get("explanation", ""))
-    if hasattr(runner, "revalidate"):
-        return runner.revalidate(ctx, doc)
-    return 0
+    how = doc.get("validate_with") or {}
+    if not how:
+        return 0
+    fn = ctx.path("replay.ndjson")
+    with open(fn, "w") as f:
+        for ev in doc["trace"]:
+            f.write(json.dumps(ev, separators=(",", ":")) + "\n")
+    mark, total, gen, dist, inv = ctx.tlc_trace(how["family"], how["module"], how["cfg"], fn,
+                                                 dfs=how.get("dfs", False), env=how.get("env") or None)
+    if not ctx.keep:
+        shutil.rmtree(ctx.build, ignore_errors=True)
+    if mark > total:
+        log("replay: the stored trace is ACCEPTED by %s now (%d events)" % (how["module"], total))
+        return 0
+    log("replay: %s rejects the stored trace at event #%d of %d%s" %
+        (how["module"], mark - 1, total, " (invariant %s)" % inv if inv else ""))
+    log("VIOLATION property=%s replay=%s" % (ctx.pid, ctx.replay))
+    return 1
